@@ -447,7 +447,8 @@ PROPS = {
     },
     "C12": {
         "lean": "SymfcModel.Props.C12", "gen": ["ApiOrders", "ApiDataset", "ApiSolve", "ApiCompute", "ApiAccess", "Solver", "SolverState", "Purity", "PipelineSkel"],
-        "corr": [{"fn": corr_api.corr_api, "quick": {"n_hist": 40}, "thorough": {"n_hist": 300, "hist_len": 9}}],
+        "corr": [{"fn": corr_api.corr_api, "quick": {"n_hist": 40}, "thorough": {"n_hist": 300, "hist_len": 9}},
+                 {"fn": corr_api.corr_api_multi, "quick": {"n_hist": 16}, "thorough": {"n_hist": 120, "hist_len": 12}}],
         "oracle": [{"name": "history", "fn": o_history, "quick": {"n": 8}, "thorough": {"n": 40}, "search": {"n": 24}},
                    {"name": "solver_object_reuse", "fn": o_solver_reuse, "quick": {"n": 6}, "thorough": {"n": 36}, "search": {"n": 18}},
                    {"name": "process_and_object_history", "fn": o_process_history, "quick": {"n": 5}, "thorough": {"n": 40}, "search": {"n": 30}},
